@@ -116,7 +116,9 @@ def run(ctx, chk):
         # next fragment is out of sequence instead of being appended to a group with a hole)
         for c in fsm.cells:
             if c.capacity:
-                ok = c.result == "err:capacity" and c.post_sid == "sid" and c.post_s == "s" and c.post_D == "D" and not c.stores
+                unchanged = c.post_sid == "sid" and c.post_s == "s" and c.post_D == "D" and not c.stores
+                closed = c.post_s == "0"      # no group is open afterwards: nothing can be continued
+                ok = c.result.startswith("err") and (unchanged or closed)
                 chk.ob(ok, "C06/capacity/%s/%s,%s,%s/%d" % (c.result, c.post_sid, c.post_s, c.post_D, len(c.stores)),
                        "reassembly [%s]: when the payload does not fit the fixed buffer the result is %s and the state becomes (%s, %s, %s) with %d stores; a later fragment would continue a group with a hole" % (
                            cfg, c.result, c.post_sid, c.post_s, c.post_D, len(c.stores)),
